@@ -66,11 +66,16 @@ func NewC05(tier string) *C05 {
 		{"hub", "minter", "1", 18, 100},
 		{"usdt", "ethereum", EthEth, 6, 100},
 		{"usdt", "minter", "12", 24, 100},
+		// a token nobody holds at genesis: deposits of 2^255 units of it fit the supply (one after the other: a withdrawal
+		// burns what it takes)
+		{"big", "ethereum", c05BigToken, 18, 100},
+		{"big", "minter", "77", 18, 100},
 	}
 	c.Items = []string{"empty", "send1", "send2", "send65", "send70", "sendM70", "reqbatch", "cancel1",
 		"dep_ok", "dep_disputed", "dep_negfee", "dep_huge", "dep_huge_dec6", "dep_huge_dec24", "dep_zero", "dep_unknown_token", "dep_unknown_chain", "dep_to_hub_short_recv", "dep_negfee_hub",
 		"exec_first", "exec_first_hugefee", "exec_unknown", "valset_event", "logic_event", "prices", "prices_partial", "holders", "observe_far", "prices_extra_name_by_powerless", "holders_by_powerless",
 		"delegate_dup_ext", "delegate_dup_orch", "delegate_fresh",
+		"dep_big", "send_bigfee", "send_big1",
 		"holders_one_nil", "holders_nil_last_empty_majority", "prices_dup_name", "prices_huge_extra", "prices_nil_value_extra", "prices_negative_extra", "prop_cold_hub", "prop_tokeninfos_empty"}
 	c.Pairs = [][2]string{{"send2", "send70"}, {"send1", "send65"}, {"dep_ok", "send70"}, {"observe_far", "send2"}, {"prices", "exec_first"}, {"reqbatch", "send70"}, {"send70", "reqbatch"}}
 	// a key registration that is rejected (address / orchestrator already in use) or accepted in the middle of a block that
@@ -117,6 +122,13 @@ func (c *C05) seedPaths() [][]engine.Op {
 		{blk(5, "empty"), blk(5, "send2")},
 		{blk(5, "dep_ok"), blk(5, "send70", "reqbatch"), blk(5, "observe_far")},
 		{blk(5, "prices"), blk(5, "empty"), blk(5, "empty"), blk(5, "empty"), blk(5, "send2", "reqbatch")},
+		// fees at the 2^256 scale: two transfers with a fee of 2^255 each (funded by two successive deposits) in one pending batch
+		{blk(5, "dep_big"), blk(5, "send_bigfee", "dep_big"), blk(5, "send_bigfee"), blk(5, "empty")},
+		// ... and both still in the pool (odd height) while an older batch of the token is pending
+		{blk(5, "dep_big"), blk(5, "send_big1", "reqbatch", "dep_big"), blk(5, "send_bigfee", "dep_big"), blk(5, "send_bigfee")},
+		// (the same at the other block parity: automatic batching runs at even heights)
+		{blk(5, "empty"), blk(5, "dep_big"), blk(5, "send_bigfee", "dep_big"), blk(5, "send_bigfee"), blk(5, "empty")},
+		{blk(5, "empty"), blk(5, "dep_big"), blk(5, "send_big1", "reqbatch", "dep_big"), blk(5, "send_bigfee", "dep_big"), blk(5, "send_bigfee")},
 	}
 }
 
@@ -327,6 +339,8 @@ func maxU256() sdk.Int {
 	return sdk.NewIntFromBigInt(new(big.Int).Sub(new(big.Int).Lsh(big.NewInt(1), 256), big.NewInt(1)))
 }
 
+var c05BigToken = hub.HexAddr("c05-big-token")
+
 func two(n uint) sdk.Int { return sdk.NewIntFromBigInt(new(big.Int).Lsh(big.NewInt(1), n)) }
 
 func (c *C05) item(in *hub.Instance, ns *c05State, it string, st *engine.Step) {
@@ -403,6 +417,21 @@ func (c *C05) item(in *hub.Instance, ns *c05State, it string, st *engine.Step) {
 		c.vote(in, ns, "ethereum", func(n uint64) mhubtypes.ExternalEvent {
 			return &mhubtypes.SendToHubEvent{EventNonce: n, ExternalCoinId: EthHub, Amount: maxU256(), Sender: sender, CosmosReceiver: c.User.String(), ExternalHeight: 1000 + n, TxHash: fmt.Sprintf("0xh%d", n)}
 		}, st)
+	case "dep_big":
+		// 2^255 + 2^252 units of the token without genesis supply
+		c.vote(in, ns, "ethereum", func(n uint64) mhubtypes.ExternalEvent {
+			return &mhubtypes.SendToHubEvent{EventNonce: n, ExternalCoinId: c05BigToken, Amount: two(255).Add(two(252)), Sender: sender, CosmosReceiver: c.User.String(), ExternalHeight: 1000 + n, TxHash: fmt.Sprintf("0xbig%d", n)}
+		}, st)
+	case "send_bigfee":
+		// a withdrawal of 2^250 units that offers a bridge fee of 2^255 units (admissible: the sender holds them)
+		r := in.DeliverMsg(mhubtypes.NewMsgSendToExternal("ethereum", c.User, hub.HexAddr("rcpt"), sdk.NewCoin("big", two(250)), sdk.NewCoin("big", two(255))))
+		if r.OK() {
+			st.Count("huge_fee_sends_ok", 1)
+		}
+	case "send_big1":
+		if in.DeliverMsg(mhubtypes.NewMsgSendToExternal("ethereum", c.User, hub.HexAddr("rcpt"), sdk.NewCoin("big", sdk.NewInt(1000)), sdk.NewCoin("big", sdk.NewInt(5)))).OK() {
+			st.Count("sends_ok", 1)
+		}
 	case "dep_huge_dec6":
 		c.vote(in, ns, "ethereum", func(n uint64) mhubtypes.ExternalEvent {
 			return &mhubtypes.SendToHubEvent{EventNonce: n, ExternalCoinId: EthEth, Amount: two(255), Sender: sender, CosmosReceiver: c.User.String(), ExternalHeight: 1000 + n, TxHash: fmt.Sprintf("0xh6%d", n)}
